@@ -17,7 +17,16 @@ from . import C16
 ID = "C17"
 LEVEL = "exploration"
 ALPHABET = ['"', "'", "/", "*", "\n", "a", "0", ".", "5", "$", "@", "§", "\\", " "]
-EXTRA = ["\t", "\r", "é", "{", "-", "x", "b", "_", " ", "\U0001F600"]
+EXTRA = ["\t", "\r", "é", "{", "-", "x", "b", "_", "\u2028", "\U0001F600", "(", ")"]
+# accepted programs with backslashes in strings (the grammar allows a backslash followed by any character),
+# blanks before '(', empty strings, an unterminated comment / a comment without newline at the end
+ACCEPTED_TEXTS = [
+    "def 0 { a('a\\qb', \"x\\[y\", '''C:\\dir''', 'tab\\there'); end; }",
+    "def 0 { a ( 1 , 'x' ) ; foo\t(2); bar\n (3); if ( debug ) { ~m (1); } }\nmacro m ($p) { x ($p); }",
+    "def 0 { a(''); b(\"\"); c(''''''); d('\\''); e(\"\\\"\"); end; }",
+    "def 0 { a(1.5, .5, -0.5, 0x1F, 0b101, 0o17, $v1, CONST_1); } /* trailing",
+    "coro X { a(Position<'p', 1, 2.5>); } // no newline at the end",
+]
 PREFIX_LEN = 2
 
 
@@ -66,6 +75,16 @@ def run_case(cid, case):
             res["sample"] = {"prefix": "".join(prefix), "length": n, "strings": count}
         return res
     # program texts
+    if cid[0] == "text":
+        try:
+            impl.compile_es(case)
+        except Exception as e:
+            return {"outcome": "harness-error", "harness_error": f"text meant to be accepted is rejected: {e}\n{case}"}
+        v = check_text(lx, case, accepted=True)
+        res = {"outcome": "violation" if v else "ok", "nt": cid}
+        if v:
+            res["viol"] = v
+        return res
     prog = case
     text = A.render(prog)
     try:
@@ -76,7 +95,7 @@ def run_case(cid, case):
     count = 0
     texts = [text, A.render(prog, A.Style(multiline=False)), A.render(prog, A.Style(quote='"', trailing_comma=True, label_sigil="§"))]
     toks = GL.tokenize(text)
-    texts += [GL.join(toks, ["/*c*/"] * len(toks)), GL.join(toks, ["//c\n"] * len(toks)), GL.join(toks, ["\r\n"] * len(toks)),
+    texts += [GL.join(toks, [" "] * len(toks)), GL.join(toks, ["\t"] * len(toks)), GL.join(toks, ["/*c*/"] * len(toks)), GL.join(toks, ["//c\n"] * len(toks)), GL.join(toks, ["\r\n"] * len(toks)),
               GL.join(toks, [" \\\n "] * len(toks)), C16.respell_triple(text, "'"), C16.respell_triple(text, '"'), text + "/* open"]
     for t in texts:
         count += 1
@@ -107,6 +126,8 @@ def run(tier, seed):
         for n in range(1, 4 if tier == "quick" else 5):
             for prefix in itertools.product(wide, repeat=1):
                 yield ("strings", "wide", n, prefix), (prefix, n, wide)
+        for i, t in enumerate(ACCEPTED_TEXTS):
+            yield ("text", i), t
         for cid, p in itertools.chain(C16.corner_programs(), gen_forms.form_programs(),
                                       G.programs(G.FULL, 2, 3, seed, ("none", "coro", "for_actor"))):
             yield ("prog",) + tuple(cid), p
@@ -114,7 +135,7 @@ def run(tier, seed):
     return runner.finish(
         ID, LEVEL, tier, seed, total, t0,
         rule=f"all strings of length <= {L} over the 14 characters {ALPHABET!r} and of length <= {3 if tier == 'quick' else 4} over "
-             f"24 characters (adding tab, CR, non-ASCII, braces, line separator, astral plane) through "
+             f"26 characters (adding tab, CR, non-ASCII, braces, line separator, astral plane) through "
              "ExplorerScriptLexer(stripnl=False).get_tokens: concatenation of token texts == input + the one appended newline; "
              "plus 10 spellings (layouts, comments everywhere, CRLF, line joining, quote styles, unterminated comment) of every "
              "accepted program of G-forms, the lexer-corner programs and G-prog(FULL, N<=2): lossless and no Error token; "
